@@ -715,7 +715,36 @@ class Interp:
         cont = self.container_of(ent)
         sib = ent.parent.children[CONTAINER[ent.kind]]
         pos = sib.index(ent)
-        if how == "obj":
+        if how == "obj-link":
+            # the object handed over was obtained through a link (list member / metadata slot), not from ``cont``
+            h = None
+            for o in self.ents:
+                if not o.alive or h is not None:
+                    continue
+                for role, lst in o.links.items():
+                    if ent in lst:
+                        h = getattr(self.handle(o), role)[ent.id]
+                        break
+                else:
+                    for role, tgt in o.single.items():
+                        if tgt is ent and role == "metadata":
+                            h = getattr(self.handle(o), role)
+                            break
+            self.del_variant = "through-link" if h is not None else "own"
+            del cont[h if h is not None else self.handle(ent)]
+        elif how == "obj-top":
+            # the object is handed to the container at the top of its tree (block.sources / file.sections), which is
+            # not its direct parent when the entity is nested
+            top = cont
+            self.del_variant = "own"
+            if ent.kind == "source" and ent.parent.kind == "source":
+                top = self.handle(ent.block()).sources
+                self.del_variant = "top-container"
+            elif ent.kind == "section" and ent.parent is not self.root:
+                top = self.f.sections
+                self.del_variant = "top-container"
+            del top[self.handle(ent)]
+        elif how == "obj":
             del cont[self.handle(ent)]
         elif how == "id" or ent.kind == "feature" and how == "name":
             del cont[ent.id]
